@@ -946,3 +946,29 @@ Proof. repeat split; vm_compute; reflexivity. Qed.
 (* a lock left held by a handler that has returned blocks every later handler that needs it, for ever *)
 Lemma leaked_lock_blocks l held q : holds l held = true -> path_ok held (Acq l :: q) = false.
 Proof. intros H. cbn [path_ok]. rewrite H. reflexivity. Qed.
+
+(* ---------------- admissible outcomes ---------------- *)
+Lemma frame_admissible_total cfg proto payload o :
+  frame_admissible Repaired cfg proto payload o -> safe o.
+Proof. intros [->|(_ & _ & ->)]; [apply handle_frame_total|reflexivity]. Qed.
+Lemma frame_admissible_wellformed v cfg proto payload o :
+  proto <> 87 \/ ipv6_wellformed payload = true ->
+  frame_admissible v cfg proto payload o -> o = handle_frame v cfg proto payload.
+Proof. intros H [->|(Hp & Hw & _)]; [reflexivity|]. destruct H as [H|H]; [contradiction|congruence]. Qed.
+Lemma frame_admissible_head v cfg proto payload : frame_admissible v cfg proto payload (handle_frame v cfg proto payload).
+Proof. left. reflexivity. Qed.
+Lemma adm_run_total next : forall frames cfg outs, adm_run next cfg frames outs -> Forall (fun o => safe o) outs.
+Proof.
+  induction frames as [|[proto pl] r IH]; intros cfg outs H; inversion H; subst; constructor.
+  - eapply frame_admissible_total; eassumption.
+  - eapply IH; eassumption.
+Qed.
+Lemma adm_run_head next : forall frames cfg, adm_run next cfg frames (disp_run next cfg frames).
+Proof.
+  induction frames as [|[proto pl] r IH]; intros cfg; cbn [disp_run]; constructor; [apply frame_admissible_head|apply IH].
+Qed.
+Lemma ipv6_wellformed_nonvacuous :
+  ipv6_wellformed (96 :: repeat 0 39) = true /\ ipv6_wellformed (repeat 0 39) = false /\ ipv6_wellformed (64 :: repeat 0 39) = false /\
+  frame_admissible Repaired (mk_dcfg true true true) 87 [1; 2; 3] (Ok RNone) /\
+  handle_frame Repaired (mk_dcfg true true true) 87 [1; 2; 3] = Ok (RIPv6 [1; 2; 3]).
+Proof. repeat split; try (vm_compute; reflexivity). right. repeat split; vm_compute; reflexivity. Qed.
